@@ -410,13 +410,15 @@ class Binner(dict):
                             whist[i] = self.weights[w[0]]
                             wxmean[i] = xmean[i]
                             wxstd[i] = 0
-                            wxerr[i] = wxmean[i]
-                            wxerr2[i] = wxmean[i]
+                            # the errors wmom reports for a single datum:
+                            # 1/sqrt(sum(weights)) and a zero variance term
+                            wxerr[i] = 1.0 / np.sqrt(self.weights[w[0]])
+                            wxerr2[i] = 0
                             if self.y is not None:
                                 wymean[i] = ymean[i]
                                 wystd[i] = 0
-                                wyerr[i] = wymean[i]
-                                wyerr2[i] = wymean[i]
+                                wyerr[i] = wxerr[i]
+                                wyerr2[i] = 0
 
                     else:
                         xmean[i] = self.x[w].mean()
